@@ -32,6 +32,27 @@ type Stmt struct {
 	txCtx *types.TransactionContext
 	query string
 	stmt  driver.Stmt
+	// owner is the AT or XA connection the statement was prepared on. It runs the statement the way it runs a
+	// statement text (branch transaction, images and undo log, XA start/end), the prepared statement doing the
+	// database work. The transaction context captured at prepare time says nothing about the transaction the
+	// statement is executed in.
+	owner stmtOwner
+}
+
+// stmtOwner is what an AT or XA connection offers to the statements prepared on it
+type stmtOwner interface {
+	execWith(ctx context.Context, query string, args []driver.NamedValue,
+		do func(ctx context.Context, query string, args []driver.NamedValue) (driver.Result, error)) (driver.Result, error)
+	queryWith(ctx context.Context, query string, args []driver.NamedValue,
+		do func(ctx context.Context, query string, args []driver.NamedValue) (driver.Rows, error)) (driver.Rows, error)
+}
+
+// ownedBy hands a statement prepared through Conn to the connection that wraps Conn
+func ownedBy(stmt driver.Stmt, owner stmtOwner) driver.Stmt {
+	if s, ok := stmt.(*Stmt); ok {
+		s.owner = owner
+	}
+	return stmt
 }
 
 // Close closes the statement.
@@ -100,6 +121,17 @@ func (s *Stmt) QueryContext(ctx context.Context, args []driver.NamedValue) (driv
 		return nil, driver.ErrSkip
 	}
 
+	if s.owner != nil {
+		return s.owner.queryWith(ctx, s.query, args,
+			func(ctx context.Context, query string, args []driver.NamedValue) (driver.Rows, error) {
+				if query != s.query {
+					// not the text that was prepared
+					return s.conn.QueryContext(ctx, query, args)
+				}
+				return stmt.QueryContext(ctx, args)
+			})
+	}
+
 	executor, err := exec.BuildExecutor(s.res.dbType, s.txCtx.TransactionMode, s.query)
 	if err != nil {
 		return nil, err
@@ -165,6 +197,17 @@ func (s *Stmt) ExecContext(ctx context.Context, args []driver.NamedValue) (drive
 	stmt, ok := s.stmt.(driver.StmtExecContext)
 	if !ok {
 		return nil, driver.ErrSkip
+	}
+
+	if s.owner != nil {
+		return s.owner.execWith(ctx, s.query, args,
+			func(ctx context.Context, query string, args []driver.NamedValue) (driver.Result, error) {
+				if query != s.query {
+					// not the text that was prepared
+					return s.conn.ExecContext(ctx, query, args)
+				}
+				return stmt.ExecContext(ctx, args)
+			})
 	}
 
 	// in transaction, need run Executor
